@@ -139,6 +139,13 @@ def _naming():
         py4hw.Not(inner, 'n1', a, m2); py4hw.Not(inner, 'n2', m2, m)
         py4hw.Not(t, 'n3', m, r)
     D['nested-scope-reuses-wire-name'] = mk(nested_same_wire_names)
+    # parameters: declarations, literal overrides, forwarding under the same and under different names (two levels)
+    import importlib.util, os
+    spec = importlib.util.spec_from_file_location('corpus_designs_params', os.path.join(os.path.dirname(os.path.dirname(os.path.abspath(__file__))), 'corpus', 'designs', 'params.py'))
+    P = importlib.util.module_from_spec(spec); spec.loader.exec_module(P)
+    D['parameter-forwarded-under-other-names'] = mk(lambda t, s: P.forwarded(t, s, 'BOOT', 'START'))
+    D['parameter-forwarded-under-the-same-name'] = mk(lambda t, s: P.forwarded(t, s, 'INIT', 'INIT'))
+    D['parameter-forwarded-child-name-reused-above'] = mk(lambda t, s: P.forwarded(t, s, 'START', 'INIT'))
     return D
 
 
